@@ -762,17 +762,26 @@ package parse
 //@ func (*tree).parseCall
 //@   like parserFn
 //@   measure rem(t), 4
-//@   stackbound 10000 - t.depth, 2
+//@   stackbound 10000 - t.depth, 3
 //@   at call strings.Index#0 assert[alias-is-what-precedes-the-first-dot;C02] same(arg0, templateName) && arg1 == "."
 //@   at call strings.LastIndex#* forbid[alias-is-what-precedes-the-first-dot;C02] false
 //@   loop 0
 //@     invariant stepOK(t) && afterNext(t) && t.aliases != nil && tokAt(tokn, cursor(t) - 1, t.lex) && cursor(t) >= old(cursor(t)) + 1
 //@     decreases ntoks(t.lex) - cursor(t)
 
+// C02: the body of a {param} is parsed as an ordinary block - not as message
+// text - and the message state of the enclosing parser is put back after it.
+//@ func (*tree).paramContent
+//@   like parserFn
+//@   measure rem(t), 8
+//@   stackbound 10000 - t.depth, 1
+//@   at call (*tree).itemList#0 assert[a-param's-content-is-an-ordinary-block;C02] !t.inmsg && len(arg1) == 1 && arg1[0] == itemParamEnd
+//@   ensures[message-state-of-the-enclosing-parser-put-back;C02] t.inmsg == old(t.inmsg)
+//@   ensures result != nil && afterNext(t) && cursor(t) >= old(cursor(t)) + 1
 //@ func (*tree).parseCallParams
 //@   like parserFn
 //@   measure rem(t), 4
-//@   stackbound 10000 - t.depth, 1
+//@   stackbound 10000 - t.depth, 2
 //@   loop 0
 //@     invariant stepOK(t) && t.aliases != nil
 //@     decreases ntoks(t.lex) - cursor(t)
